@@ -52,6 +52,25 @@ func runTimepb(cfg *Cfg) {
 		if ds < 0 || (ds == 0 && r.Bool()) {
 			dn = -dn
 		}
+		if r.Chance(12) {
+			// durations whose length in nanoseconds sits on (or next to) a multiple of 2^64, 2^63, 2^62 or 2^32: where
+			// an intermediate computed in wrapping 64-bit (or 32-bit) arithmetic comes out as 0 or changes sign
+			unit := []uint{64, 63, 62, 32}[r.Intn(4)]
+			k := int64(1 + r.Intn(17))
+			if unit == 32 {
+				k = int64(1 + r.Intn(1<<20))
+			}
+			total := new(big.Int).Lsh(big.NewInt(k), unit)
+			total.Add(total, big.NewInt(int64(r.Intn(3)-1)))
+			if r.Bool() {
+				total.Neg(total)
+			}
+			q, m := new(big.Int).QuoRem(total, big.NewInt(1e9), new(big.Int)) // truncated: both parts carry the sign
+			if q.IsInt64() && q.Int64() >= -315576000000 && q.Int64() <= 315576000000 {
+				ds, dn = q.Int64(), int32(m.Int64())
+				out.Count("durations_at_power_of_two_nanos")
+			}
+		}
 		overflowMode := r.Chance(8)
 		if overflowMode { // seconds near the int64 limits, normalised nanos, valid duration
 			if r.Bool() {
